@@ -183,8 +183,9 @@ def oracle_islands(sf, kw):
         (r0, r1), (c0, c1) = [[int(x) for x in b] for b in i.bounding_box]
         d = np.array(gd.img[r0:r1, c0:c1], dtype=float)
         d[np.asarray(i.mask)] = np.nan
+        # the island's peak pixel = its strongest pixel (largest absolute value)
         pk = np.nanmax(d)
-        if pk < 0:
+        if -np.nanmin(d) > pk:
             pk = np.nanmin(d)
         out.append({"num": n, "npix": int(np.sum(np.isfinite(d))), "peaktok": common.hexf(pk),
                     "extent": [r0, r1, c0, c1]})
